@@ -24,6 +24,9 @@ func propC07(c *Ctx) {
 	c.ruleLineSource()
 	c.ruleScanTrace()
 	c.ruleMemoKey()
+	// line numbers are counted in the file's bytes: nothing may rewrite them in place (a normaliser that works on the
+	// slice it was given shifts every later line)
+	c.ruleNormalisers()
 }
 
 // ---------- (file, index) from one source ----------
